@@ -82,6 +82,10 @@ def conv_general_dilated(lhs, rhs, window_strides, padding, lhs_dilation=None, r
         raise OutOfReach("conv: symbolic filter extent")
     N = [extent(d) for d in lhs.dims[1:1 + D]]
     if isinstance(padding, str):
+        if any(v != 1 for v in ldil):
+            # library pre-condition (jax raises exactly this)
+            raise ValueError("String padding is not implemented for transposed convolution using this op. Please either "
+                             "exactly specify the required padding or use conv_transpose.")
         if padding.upper() == "VALID":
             pads = [(0, 0)] * D
         elif padding.upper() == "SAME":
